@@ -347,7 +347,10 @@ class Importer:
             if not only_modules:
                 from jedi.inference.gradual.conversion import convert_values
 
-                both_values = values | convert_values(values)
+                # Keep a deterministic order (a set of values is ordered by
+                # object address): the given values first, then the converted.
+                both_values = list(values)
+                both_values += [v for v in convert_values(values) if v not in values]
                 for c in both_values:
                     for filter in c.get_filters():
                         names += filter.values()
